@@ -194,7 +194,8 @@ theorem view_invalid {st : St} (h : ¬ valid st) : doneK st = keys st.out ∧ pe
 
 theorem rotateTone_ok (s e : Nat) (out : List G) (P : List K) (x : K) (hk : keys out = P ++ [x])
     (he : e = P.length) (hse : s ≤ e) :
-    ∃ o, rotateTone s e out = some o ∧ keys o = P.take s ++ x :: P.drop s := by
+    ∃ o, rotateTone s e out = some o ∧ keys o = P.take s ++ x :: P.drop s ∧ o.length = out.length
+      ∧ o.take s = out.take s := by
   have hl : out.length = e + 1 := by rw [← keys_length, hk]; simp [he]
   unfold rotateTone
   have h1 : ¬ e < s := by omega
@@ -209,7 +210,15 @@ theorem rotateTone_ok (s e : Nat) (out : List G) (P : List K) (x : K) (hk : keys
       simp only [List.length_drop, List.length_cons] at this
       exact List.eq_nil_of_length_eq_zero (by omega)
     subst hafter
-    refine ⟨_, rfl, ?_⟩
+    refine ⟨_, rfl, ?_, ?_, ?_⟩
+    rotate_left
+    · have h1 : min s out.length = s := by omega
+      have h2 : min e out.length = e := by omega
+      simp only [List.length_append, List.length_cons, List.length_take, List.length_drop, List.length_nil, h1, h2]
+      omega
+    · have hls : (out.take s).length = s := by simp; omega
+      rw [List.append_assoc]
+      exact List.take_left' hls
     have hsplit : keys out = keys (out.take e) ++ keys (out.drop e) := by
       rw [← keys_append, List.take_append_drop]
     rw [hd, hk] at hsplit
@@ -258,6 +267,339 @@ theorem mergeOut_same (lvl s e : Nat) (out inp o i : List G) (hl : lvl ≠ 2) (h
     exact sameCluster_map_setCl _ _
 
 
+/-! ## clusters are only ever merged: neighbours that share a cluster keep sharing one -/
+
+/-- `new` has the glyphs of `old` with clusters rewritten so that any two *adjacent* glyphs with equal clusters
+    still have equal clusters -/
+def AdjPres : List G → List G → Prop
+  | a :: b :: r, a' :: b' :: r' => (a.cl = b.cl → a'.cl = b'.cl) ∧ AdjPres (b :: r) (b' :: r')
+  | [_], [_] => True
+  | [], [] => True
+  | _, _ => False
+
+theorem AdjPres_refl : ∀ l : List G, AdjPres l l
+  | [] => trivial
+  | [_] => trivial
+  | _ :: b :: r => ⟨id, AdjPres_refl (b :: r)⟩
+
+theorem AdjPres_length : ∀ {a b : List G}, AdjPres a b → a.length = b.length
+  | [], [], _ => rfl
+  | [_], [_], _ => rfl
+  | _ :: b :: r, _ :: b' :: r', h => by
+      have := AdjPres_length (a := b :: r) (b := b' :: r') h.2
+      simp at this ⊢; omega
+  | [], _ :: _, h => by cases h
+  | [_], [], h => by cases h
+  | [_], _ :: _ :: _, h => by cases h
+  | _ :: _ :: _, [], h => by cases h
+  | _ :: _ :: _, [_], h => by cases h
+
+theorem AdjPres_trans : ∀ {a b c : List G}, AdjPres a b → AdjPres b c → AdjPres a c
+  | [], [], [], _, _ => trivial
+  | [_], [_], [_], _, _ => trivial
+  | x :: y :: r, x' :: y' :: r', x'' :: y'' :: r'', h1, h2 =>
+      ⟨fun h => h2.1 (h1.1 h), AdjPres_trans (a := y :: r) (b := y' :: r') (c := y'' :: r'') h1.2 h2.2⟩
+  | [], [], _ :: _, _, h2 => by cases h2
+  | [_], [_], [], _, h2 => by cases h2
+  | [_], [_], _ :: _ :: _, _, h2 => by cases h2
+  | _ :: _ :: _, _ :: _ :: _, [], _, h2 => by cases h2
+  | _ :: _ :: _, _ :: _ :: _, [_], _, h2 => by cases h2
+  | [], _ :: _, _, h1, _ => by cases h1
+  | [_], [], _, h1, _ => by cases h1
+  | [_], _ :: _ :: _, _, h1, _ => by cases h1
+  | _ :: _ :: _, [], _, h1, _ => by cases h1
+  | _ :: _ :: _, [_], _, h1, _ => by cases h1
+
+/-- everything rewritten to one cluster -/
+theorem AdjPres_map_setCl (c : Nat) : ∀ l : List G, AdjPres l (l.map (setCl c))
+  | [] => trivial
+  | [_] => trivial
+  | _ :: b :: r => ⟨fun _ => rfl, AdjPres_map_setCl c (b :: r)⟩
+
+theorem AdjPres_take : ∀ (m : Nat) {a b : List G}, AdjPres a b → AdjPres (a.take m) (b.take m)
+  | 0, _, _, _ => by simp [AdjPres]
+  | _ + 1, [], [], _ => trivial
+  | _ + 1, [_], [_], _ => by simp [AdjPres]
+  | 1, _ :: _ :: _, _ :: _ :: _, _ => by simp [AdjPres]
+  | m + 2, x :: y :: r, x' :: y' :: r', h => by
+      have := AdjPres_take (m + 1) (a := y :: r) (b := y' :: r') h.2
+      simp only [List.take_succ_cons] at this ⊢
+      exact ⟨h.1, this⟩
+  | _ + 1, [], _ :: _, h => by cases h
+  | _ + 1, [_], [], h => by cases h
+  | _ + 1, [_], _ :: _ :: _, h => by cases h
+  | _ + 1, _ :: _ :: _, [], h => by cases h
+  | _ + 1, _ :: _ :: _, [_], h => by cases h
+
+
+theorem AdjPres_drop : ∀ (m : Nat) {a b : List G}, AdjPres a b → AdjPres (a.drop m) (b.drop m)
+  | 0, _, _, h => h
+  | _ + 1, [], [], _ => trivial
+  | _ + 1, [_], [_], _ => by simp [AdjPres]
+  | m + 1, _ :: y :: r, _ :: y' :: r', h => by
+      simpa using AdjPres_drop m (a := y :: r) (b := y' :: r') h.2
+  | _ + 1, [], _ :: _, h => by cases h
+  | _ + 1, [_], [], h => by cases h
+  | _ + 1, [_], _ :: _ :: _, h => by cases h
+  | _ + 1, _ :: _ :: _, [], h => by cases h
+  | _ + 1, _ :: _ :: _, [_], h => by cases h
+
+theorem sameCluster_cons {x : G} {l : List G} : sameCluster (x :: l) ↔ (∀ g ∈ l, g.cl = x.cl) := by
+  constructor
+  · intro h g hg; exact h g (List.mem_cons_of_mem _ hg) x (List.mem_cons_self ..)
+  · intro h g hg k hk
+    have hg' : g.cl = x.cl := by
+      cases List.mem_cons.mp hg with
+      | inl e => rw [e]
+      | inr e => exact h g e
+    have hk' : k.cl = x.cl := by
+      cases List.mem_cons.mp hk with
+      | inl e => rw [e]
+      | inr e => exact h k e
+    rw [hg', hk']
+
+/-- a list in one cluster stays in one cluster -/
+theorem sameCluster_of_AdjPres : ∀ {a b : List G}, AdjPres a b → sameCluster a → sameCluster b
+  | [], [], _, _ => by intro g hg; cases hg
+  | [_], [_], _, _ => sameCluster_short _ (by simp)
+  | x :: y :: r, x' :: y' :: r', h, hs => by
+      have hxy : x.cl = y.cl := (sameCluster_cons.mp hs y (List.mem_cons_self ..)).symm
+      have htail : sameCluster (y :: r) := fun g hg k hk => hs g (List.mem_cons_of_mem _ hg) k (List.mem_cons_of_mem _ hk)
+      have ih := sameCluster_of_AdjPres (a := y :: r) (b := y' :: r') h.2 htail
+      rw [sameCluster_cons]
+      intro g hg
+      rw [h.1 hxy]
+      cases List.mem_cons.mp hg with
+      | inl e => rw [e]
+      | inr e => exact sameCluster_cons.mp ih g e
+  | [], _ :: _, h, _ => by cases h
+  | [_], [], h, _ => by cases h
+  | [_], _ :: _ :: _, h, _ => by cases h
+  | _ :: _ :: _, [], h, _ => by cases h
+  | _ :: _ :: _, [_], h, _ => by cases h
+
+/-- … hence every block (`n` glyphs from position `i`) that was in one cluster stays in one cluster -/
+theorem block_of_AdjPres {a b : List G} (h : AdjPres a b) (i n : Nat)
+    (hs : sameCluster ((a.drop i).take n)) : sameCluster ((b.drop i).take n) :=
+  sameCluster_of_AdjPres (AdjPres_take n (AdjPres_drop i h)) hs
+
+/-- the cluster walks: `p` looks at the cluster only -/
+theorem AdjPres_mapWhile (c0 c : Nat) : ∀ l : List G, AdjPres l (mapWhile (fun g => g.cl == c0) (setCl c) l)
+  | [] => trivial
+  | [x] => by simp only [mapWhile]; split <;> trivial
+  | x :: y :: r => by
+      have ih := AdjPres_mapWhile c0 c (y :: r)
+      simp only [mapWhile] at ih ⊢
+      by_cases hx : (x.cl == c0) = true
+      · simp only [hx, if_true]
+        by_cases hy : (y.cl == c0) = true
+        · simp only [hy, if_true] at ih ⊢
+          exact ⟨fun _ => rfl, ih⟩
+        · simp only [hy, if_false] at ih ⊢
+          refine ⟨fun h => ?_, ih⟩
+          rw [h] at hx; exact absurd hx hy
+      · simp only [hx, if_false]
+        exact AdjPres_refl _
+
+theorem mapWhile_append_single (p : G → Bool) (f : G → G) (g : G) : ∀ xs : List G,
+    mapWhile p f (xs ++ [g]) = if xs.all p then xs.map f ++ (if p g then [f g] else [g]) else mapWhile p f xs ++ [g]
+  | [] => by simp [mapWhile]
+  | x :: xs => by
+      have ih := mapWhile_append_single p f g xs
+      simp only [List.cons_append, mapWhile, List.all_cons, List.map_cons]
+      by_cases hx : p x = true
+      · simp only [hx, if_true, Bool.true_and, ih]
+        split <;> rfl
+      · simp [hx]
+
+theorem mapWhile_all (p : G → Bool) (f : G → G) : ∀ l : List G, l.all p = true → mapWhile p f l = l.map f
+  | [], _ => rfl
+  | x :: xs, h => by
+      simp only [List.all_cons, Bool.and_eq_true] at h
+      simp only [mapWhile, h.1, if_true, List.map_cons, mapWhile_all p f xs h.2]
+
+/-- walking back from the end, seen from the front -/
+theorem mapWhileBack_cons (p : G → Bool) (f : G → G) (g : G) (gs : List G) :
+    mapWhileBack p f (g :: gs) = if (p g && gs.all p) = true then (g :: gs).map f else g :: mapWhileBack p f gs := by
+  unfold mapWhileBack
+  rw [List.reverse_cons, mapWhile_append_single]
+  by_cases ha : gs.all p = true
+  · have ha' : gs.reverse.all p = true := by simpa using ha
+    simp only [ha', if_true, ha, Bool.and_true]
+    by_cases hg : p g = true
+    · simp [hg]
+    · simp only [hg, if_false, Bool.false_eq_true]
+      simp
+      rw [mapWhile_all p f _ ha']; simp
+  · have ha' : ¬ gs.reverse.all p = true := by simpa using ha
+    have ha0 : gs.all p = false := by simpa using ha
+    simp only [ha', if_false, ha0, Bool.and_false, Bool.false_eq_true]
+    simp
+
+
+theorem AdjPres_mapWhileBack (c0 c : Nat) : ∀ l : List G, AdjPres l (mapWhileBack (fun g => g.cl == c0) (setCl c) l)
+  | [] => trivial
+  | [x] => by rw [mapWhileBack_cons]; split <;> simp [AdjPres, mapWhileBack, mapWhile]
+  | x :: y :: r => by
+      have ih := AdjPres_mapWhileBack c0 c (y :: r)
+      rw [mapWhileBack_cons]
+      by_cases hall : ((x.cl == c0) && (y :: r).all (fun g => g.cl == c0)) = true
+      · simp only [hall, if_true]
+        exact AdjPres_map_setCl c _
+      · simp only [hall, if_false]
+        rw [mapWhileBack_cons] at ih ⊢
+        by_cases hy : ((y.cl == c0) && r.all (fun g => g.cl == c0)) = true
+        · -- the walk reaches y but stops before x: their clusters differ
+          simp only [hy, if_true] at ih ⊢
+          refine ⟨fun h => ?_, ih⟩
+          exfalso
+          apply hall
+          simp only [Bool.and_eq_true, List.all_cons] at hy ⊢
+          exact ⟨by rw [h]; exact hy.1, hy.1, hy.2⟩
+        · simp only [hy, if_false] at ih ⊢
+          exact ⟨id, ih⟩
+
+
+theorem mergeIn_adj {lvl n : Nat} {out inp o i : List G} (h : mergeIn lvl n out inp = some (o, i)) : AdjPres out o := by
+  unfold mergeIn at h
+  split at h
+  · cases h; exact AdjPres_refl _
+  split at h
+  · cases h; exact AdjPres_refl _
+  split at h
+  · cases h
+  · split at h
+    · cases h
+    · simp only [Option.some.injEq, Prod.mk.injEq] at h
+      obtain ⟨ho, _⟩ := h
+      subst ho
+      split
+      · exact AdjPres_mapWhileBack _ _ _
+      · exact AdjPres_refl _
+
+theorem mergeOut_adj {lvl s e : Nat} {out inp o i : List G} (h : mergeOut lvl s e out inp = some (o, i))
+    (hs : s ≤ out.length) : AdjPres (out.take s) (o.take s) := by
+  unfold mergeOut at h
+  split at h
+  · cases h; exact AdjPres_refl _
+  split at h
+  · cases h
+  split at h
+  · cases h; exact AdjPres_refl _
+  split at h
+  · cases h
+  · split at h
+    · cases h
+    · simp only [Option.some.injEq, Prod.mk.injEq] at h
+      obtain ⟨ho, _⟩ := h
+      subst ho
+      rw [List.append_assoc, List.take_left' (by simp; omega)]
+      exact AdjPres_mapWhileBack _ _ _
+
+
+theorem replaceGlyphs_adj {lvl n : Nat} {data : List Nat} {out inp o i : List G}
+    (h : replaceGlyphs lvl n data out inp = some (o, i)) : AdjPres out (o.take out.length) := by
+  unfold replaceGlyphs at h
+  split at h
+  · cases h
+  · split at h
+    · cases h
+    · rename_i out1 inp1 hm
+      have hl := (AdjPres_length (mergeIn_adj hm)).symm
+      split at h
+      · cases h
+      · simp only [Option.some.injEq, Prod.mk.injEq] at h
+        obtain ⟨ho, _⟩ := h
+        subst ho
+        rw [List.take_left' hl]
+        exact mergeIn_adj hm
+
+theorem replaceGlyphs_struct_adj {lvl n : Nat} {data : List Nat} {out inp o1 x i : List G}
+    (h : replaceGlyphs lvl n data out inp = some (o1 ++ x, i)) (hl : o1.length = out.length) : AdjPres out o1 := by
+  have := replaceGlyphs_adj h
+  rwa [← hl, List.take_left' rfl] at this
+
+theorem closeSyllable_adj {c : Cfg} {s e : Nat} {out inp : List G} {st' : St}
+    (h : closeSyllable c s e out inp = some st') (hs : s ≤ out.length) : AdjPres (out.take s) (st'.out.take s) := by
+  unfold closeSyllable at h
+  split at h
+  · split at h
+    · cases h
+    · rename_i hm
+      cases h
+      exact mergeOut_adj hm hs
+  · cases h; exact AdjPres_refl _
+
+theorem modAt_take (f : G → G) : ∀ (k : Nat) (l l' : List G) (j : Nat), modAt f k l = some l' → j ≤ k → l'.take j = l.take j
+  | _, [], _, _, h, _ => by simp [modAt] at h
+  | 0, g :: gs, l', j, h, hj => by
+      have : j = 0 := by omega
+      subst this; simp
+  | k + 1, g :: gs, l', j, h, hj => by
+      simp only [modAt] at h
+      cases hm : modAt f k gs with
+      | none => rw [hm] at h; cases h
+      | some r =>
+        rw [hm] at h
+        simp only [Option.map_some, Option.some.injEq] at h
+        subst h
+        cases j with
+        | zero => simp
+        | succ j' => simp only [List.take_succ_cons]; rw [modAt_take f k gs r j' hm (by omega)]
+
+theorem tagOut_take {s e : Nat} {out o : List G} (h : tagOut s e out = some o) : o.take s = out.take s := by
+  unfold tagOut at h
+  split at h
+  · cases h
+  · rename_i o3 h3
+    split at h
+    · cases h
+    · rename_i o4 h4
+      have e3 := modAt_take _ _ _ _ s h3 (by omega)
+      have e4 := modAt_take _ _ _ _ s h4 (by omega)
+      split at h
+      · have e5 := modAt_take _ _ _ _ s h (by omega)
+        rw [e5, e4, e3]
+      · cases h; rw [e4, e3]
+
+theorem modAt_length (f : G → G) : ∀ (k : Nat) (l l' : List G), modAt f k l = some l' → l'.length = l.length
+  | _, [], _, h => by simp [modAt] at h
+  | 0, g :: gs, l', h => by simp only [modAt, Option.some.injEq] at h; subst h; rfl
+  | k + 1, g :: gs, l', h => by
+      simp only [modAt] at h
+      cases hm : modAt f k gs with
+      | none => rw [hm] at h; cases h
+      | some r =>
+        rw [hm] at h
+        simp only [Option.map_some, Option.some.injEq] at h
+        subst h
+        simp [modAt_length f k gs r hm]
+
+theorem tagOut_length {s e : Nat} {out o : List G} (h : tagOut s e out = some o) : o.length = out.length := by
+  unfold tagOut at h
+  split at h
+  · cases h
+  · rename_i o3 h3
+    split at h
+    · cases h
+    · rename_i o4 h4
+      have e3 := modAt_length _ _ _ _ h3
+      have e4 := modAt_length _ _ _ _ h4
+      split at h
+      · rw [modAt_length _ _ _ _ h, e4, e3]
+      · cases h; rw [e4, e3]
+
+theorem finishDecomposed_adj {c : Cfg} {s n : Nat} {out inp : List G} {st' : St}
+    (h : finishDecomposed c s n out inp = some st') (hs : s ≤ out.length) :
+    AdjPres (out.take s) (st'.out.take s) := by
+  unfold finishDecomposed at h
+  split at h
+  · cases h
+  · rename_i o ht
+    have := closeSyllable_adj h (by rw [tagOut_length ht]; exact hs)
+    rwa [tagOut_take ht] at this
+
+
 theorem closeSyllable_ok (c : Cfg) (s e : Nat) (out inp : List G) (hse : s ≤ e) (he : e ≤ out.length) :
     ∃ st', closeSyllable c s e out inp = some st' ∧ st'.start = s ∧ st'.end_ = e ∧ keys st'.out = keys out
       ∧ keys st'.inp = keys inp ∧ st'.out.length = out.length
@@ -276,6 +618,18 @@ theorem afterTone_view (o i : List G) :
   have hv : ¬ valid (afterTone o i) := by simp [valid, afterTone]
   exact ⟨(view_invalid hv).1, (view_invalid hv).2, by simp [Inv, afterTone]⟩
 
+theorem afterTone_invalid (o i : List G) : ¬ valid (afterTone o i) := by simp [valid, afterTone]
+
+/-- the prefix of the out-buffer whose positions an iteration cannot disturb: all of it, except that a tone mark
+    is moved in front of the open syllable -/
+def stable (st : St) (g : G) : Nat := if isTone g.cp = true ∧ valid st then st.start else st.out.length
+
+/-- what one iteration does to the glyphs already in the out-buffer: they stay (in the stable prefix), adjacent
+    glyphs that shared a cluster still share one, and a newly opened syllable starts behind them -/
+def AdjInfo (st : St) (g : G) (st' : St) : Prop :=
+  st.out.length ≤ st'.out.length ∧ (valid st' → st.out.length ≤ st'.start) ∧
+  AdjPres (st.out.take (stable st g)) (st'.out.take (stable st g))
+
 /-- what one iteration has to establish -/
 def Sim (c : Cfg) (st : St) (g : G) (rest : List G) (st' : St) : Prop :=
   Inv st' ∧
@@ -284,9 +638,9 @@ def Sim (c : Cfg) (st : St) (g : G) (rest : List G) (st' : St) : Prop :=
   keys st'.inp = (stepK (sup c) (pendK st) (key g) (keys rest)).rest
 
 theorem stepTone_sim (c : Cfg) (st : St) (g : G) (rest : List G) (ht : isTone g.cp = true) :
-    ∃ st', stepTone c st g rest = some st' ∧ Sim c st g rest st' := by
+    ∃ st', stepTone c st g rest = some st' ∧ Sim c st g rest st' ∧ AdjInfo st g st' := by
   have htS : Spec.Hangul.isTone (key g).1 = true := by rw [← isTone_eq]; exact ht
-  unfold Sim stepK
+  unfold Sim stepK AdjInfo
   simp only [htS, if_true]
   by_cases hv : valid st
   · -- a syllable is open
@@ -302,21 +656,34 @@ theorem stepTone_sim (c : Cfg) (st : St) (g : G) (rest : List G) (ht : isTone g.
     simp only [hne]
     by_cases hz : c.zeroW g.cp = true
     · simp only [hz, Bool.not_true, Bool.false_eq_true, if_false]
-      refine ⟨_, rfl, (afterTone_view _ _).2.2, ?_, (afterTone_view _ _).2.1, rfl⟩
-      rw [(afterTone_view _ _).1]
-      simp only [sup, key, hz, hpend, hdone, if_true, keys_append, keys_cons, keys_nil]
-      rw [← List.append_assoc, List.take_append_drop]
+      have hst : stable st g = st.start := by simp [stable, ht, hv]
+      refine ⟨_, rfl, ⟨(afterTone_view _ _).2.2, ?_, (afterTone_view _ _).2.1, rfl⟩,
+        by simp [afterTone], fun h => absurd h (afterTone_invalid _ _), ?_⟩
+      · rw [(afterTone_view _ _).1]
+        simp only [sup, key, hz, hpend, hdone, if_true, keys_append, keys_cons, keys_nil]
+        rw [← List.append_assoc, List.take_append_drop]
+      · rw [hst]
+        simp only [afterTone]
+        rw [List.take_append_of_le_length (by omega)]
+        exact AdjPres_refl _
     · have hz' : c.zeroW g.cp = false := by simpa using hz
       simp only [hz', Bool.not_false, if_true]
       obtain ⟨o2, i2, hm, hko, hki, hlo, _⟩ :=
         mergeOut_ok c.level st.start (st.end_ + 1) (st.out ++ [g]) rest (by omega) (by simp; omega)
       simp only [hm]
-      obtain ⟨o3, hr, hk3⟩ := rotateTone_ok st.start st.end_ o2 (keys st.out) (key g)
+      obtain ⟨o3, hr, hk3, hl3, ht3⟩ := rotateTone_ok st.start st.end_ o2 (keys st.out) (key g)
         (by rw [hko]; simp) (by simp [he]) (by omega)
       simp only [hr]
-      refine ⟨_, rfl, (afterTone_view _ _).2.2, ?_, (afterTone_view _ _).2.1, hki⟩
-      rw [(afterTone_view _ _).1, hk3]
-      simp [sup, key, hz', hpend, hdone]
+      have hst : stable st g = st.start := by simp [stable, ht, hv]
+      refine ⟨_, rfl, ⟨(afterTone_view _ _).2.2, ?_, (afterTone_view _ _).2.1, hki⟩,
+        by simp [afterTone, hl3, hlo], fun h => absurd h (afterTone_invalid _ _), ?_⟩
+      · rw [(afterTone_view _ _).1, hk3]
+        simp [sup, key, hz', hpend, hdone]
+      · rw [hst]
+        simp only [afterTone]
+        rw [ht3]
+        have := mergeOut_adj hm (by simp; omega)
+        rwa [List.take_append_of_le_length (by omega)] at this
   · have hpend : pendK st = [] := (view_invalid hv).2
     have hdone : doneK st = keys st.out := (view_invalid hv).1
     unfold stepTone
@@ -328,20 +695,30 @@ theorem stepTone_sim (c : Cfg) (st : St) (g : G) (rest : List G) (ht : isTone g.
       obtain ⟨o, i, hrep, hko, hki, _, _⟩ := replaceGlyphs_ok c.level 1
         (if (!c.zeroW g.cp) = true then [g.cp, DOTTED_CIRCLE] else [DOTTED_CIRCLE, g.cp]) st.out g rest (by simp)
       simp only [hrep]
-      refine ⟨_, rfl, (afterTone_view _ _).2.2, ?_, (afterTone_view _ _).2.1, by simpa [afterTone] using hki⟩
-      rw [(afterTone_view _ _).1, hko, hdone]
-      have hd' : (sup c).dotted = true := hd
-      simp only [hd', if_true]
-      by_cases hz : c.zeroW g.cp = true
-      · simp [sup, hz, key, DOTTED_CIRCLE, Spec.Hangul.DOTTED_CIRCLE]
-      · have hz' : c.zeroW g.cp = false := by simpa using hz
-        simp [sup, hz', key, DOTTED_CIRCLE, Spec.Hangul.DOTTED_CIRCLE]
+      have hst : stable st g = st.out.length := by simp [stable, hv]
+      have hadj := replaceGlyphs_adj hrep
+      refine ⟨_, rfl, ⟨(afterTone_view _ _).2.2, ?_, (afterTone_view _ _).2.1, by simpa [afterTone] using hki⟩,
+        by simp only [afterTone]; rw [(AdjPres_length hadj)]; simp; omega,
+        fun h => absurd h (afterTone_invalid _ _), ?_⟩
+      · rw [(afterTone_view _ _).1, hko, hdone]
+        have hd' : (sup c).dotted = true := hd
+        simp only [hd', if_true]
+        by_cases hz : c.zeroW g.cp = true
+        · simp [sup, hz, key, DOTTED_CIRCLE, Spec.Hangul.DOTTED_CIRCLE]
+        · have hz' : c.zeroW g.cp = false := by simpa using hz
+          simp [sup, hz', key, DOTTED_CIRCLE, Spec.Hangul.DOTTED_CIRCLE]
+      · rw [hst]
+        simpa [afterTone] using hadj
     · have hd0 : (!c.noDotted && c.has DOTTED_CIRCLE) = false := by simpa using hd
       simp only [hd0, Bool.false_eq_true, if_false]
-      refine ⟨_, rfl, (afterTone_view _ _).2.2, ?_, (afterTone_view _ _).2.1, rfl⟩
-      rw [(afterTone_view _ _).1, hdone]
-      have hd' : (sup c).dotted = false := hd0
-      simp [hd']
+      have hst : stable st g = st.out.length := by simp [stable, hv]
+      refine ⟨_, rfl, ⟨(afterTone_view _ _).2.2, ?_, (afterTone_view _ _).2.1, rfl⟩,
+        by simp [afterTone], fun h => absurd h (afterTone_invalid _ _), ?_⟩
+      · rw [(afterTone_view _ _).1, hdone]
+        have hd' : (sup c).dotted = false := hd0
+        simp [hd']
+      · rw [hst]
+        simpa [afterTone] using AdjPres_refl st.out
 
 
 /-! ## syllable iterations -/
@@ -392,7 +769,8 @@ def SylOK (c : Cfg) (st : St) (g : G) (rest : List G) (st' : St) : Prop :=
   keys st'.out = keys st.out ++ (parse (sup c) (key g) (keys rest)).1 ∧
   keys st'.inp = (keys rest).drop (parse (sup c) (key g) (keys rest)).2 ∧
   (parse (sup c) (key g) (keys rest)).1 ≠ [] ∧
-  (c.level = 0 → sameCluster (st'.out.drop st.out.length))
+  (c.level = 0 → sameCluster (st'.out.drop st.out.length)) ∧
+  AdjPres st.out (st'.out.take st.out.length)
 
 theorem s_formula_0 (l v : Nat) :
     SBase + (l - LBase) * NCount + (v - VBase) * TCount + 0 = Spec.Hangul.compose l v Spec.Hangul.TBase := by
@@ -418,12 +796,12 @@ theorem stepLV_ok (c : Cfg) (st : St) (gl gv : G) (rest2 : List G) (hl : isL gl.
         [Spec.Hangul.compose gl.cp gv.cp Spec.Hangul.TBase] st.out gl [gv] (by simp)
       simp only [hrep]
       exact ⟨_, rfl, rfl, by simp [hlo], by simpa using hko, by simpa [key] using hki, by simp,
-          fun _ => sameCluster_short _ (by simp [hlo])⟩
+          fun _ => sameCluster_short _ (by simp [hlo]), replaceGlyphs_adj hrep⟩
     · simp only [hc, if_false]
       obtain ⟨st', hcs, h1, h2, h3, h4, h5, h6⟩ := closeSyllable_ok c st.out.length (st.out.length + 2)
         (st.out ++ [setTag LJMO gl, setTag VJMO gv]) [] (by omega) (by simp)
       refine ⟨st', hcs, h1, by rw [h2, h5]; simp, ?_, by simpa [key] using h4, by simp,
-          fun h0 => h6 h0 (by omega) (by simp)⟩
+          fun h0 => h6 h0 (by omega) (by simp), by simpa using closeSyllable_adj hcs (by simp)⟩
       rw [h3]; simp [LJMO, VJMO, Spec.Hangul.LJMO, Spec.Hangul.VJMO]
   | cons gt rest3 =>
     by_cases hT : isT gt.cp = true
@@ -439,12 +817,12 @@ theorem stepLV_ok (c : Cfg) (st : St) (gl gv : G) (rest2 : List G) (hl : isL gl.
           [Spec.Hangul.compose gl.cp gv.cp gt.cp] st.out gl (gv :: gt :: rest3) (by simp)
         simp only [hrep]
         exact ⟨_, rfl, rfl, by simp [hlo], by simpa using hko, by simpa [key] using hki, by simp,
-          fun _ => sameCluster_short _ (by simp [hlo])⟩
+          fun _ => sameCluster_short _ (by simp [hlo]), replaceGlyphs_adj hrep⟩
       · simp only [hc, if_false]
         obtain ⟨st', hcs, h1, h2, h3, h4, h5, h6⟩ := closeSyllable_ok c st.out.length (st.out.length + 3)
           (st.out ++ [setTag LJMO gl, setTag VJMO gv, setTag TJMO gt]) rest3 (by omega) (by simp)
         refine ⟨st', hcs, h1, by rw [h2, h5]; simp, ?_, by simpa [key] using h4, by simp,
-          fun h0 => h6 h0 (by omega) (by simp)⟩
+          fun h0 => h6 h0 (by omega) (by simp), by simpa using closeSyllable_adj hcs (by simp)⟩
         rw [h3]; simp [LJMO, VJMO, TJMO, Spec.Hangul.LJMO, Spec.Hangul.VJMO, Spec.Hangul.TJMO]
     · have hT' : isT gt.cp = false := by simpa using hT
       have hTS : Spec.Hangul.isT gt.cp = false := by rw [← isT_eq]; exact hT'
@@ -458,12 +836,12 @@ theorem stepLV_ok (c : Cfg) (st : St) (gl gv : G) (rest2 : List G) (hl : isL gl.
           [Spec.Hangul.compose gl.cp gv.cp Spec.Hangul.TBase] st.out gl (gv :: gt :: rest3) (by simp)
         simp only [hrep]
         exact ⟨_, rfl, rfl, by simp [hlo], by simpa using hko, by simpa [key] using hki, by simp,
-          fun _ => sameCluster_short _ (by simp [hlo])⟩
+          fun _ => sameCluster_short _ (by simp [hlo]), replaceGlyphs_adj hrep⟩
       · simp only [hc, if_false]
         obtain ⟨st', hcs, h1, h2, h3, h4, h5, h6⟩ := closeSyllable_ok c st.out.length (st.out.length + 2)
           (st.out ++ [setTag LJMO gl, setTag VJMO gv]) (gt :: rest3) (by omega) (by simp)
         refine ⟨st', hcs, h1, by rw [h2, h5]; simp, ?_, by simpa [key] using h4, by simp,
-          fun h0 => h6 h0 (by omega) (by simp)⟩
+          fun h0 => h6 h0 (by omega) (by simp), by simpa using closeSyllable_adj hcs (by simp)⟩
         rw [h3]; simp [LJMO, VJMO, Spec.Hangul.LJMO, Spec.Hangul.VJMO]
 
 
@@ -558,7 +936,7 @@ theorem stepS_ok (c : Cfg) (st : St) (g : G) (rest : List G) (hS : isCombinedS g
     by_cases hh : c.has g.cp = true
     · -- the font has S: keep it
       simp only [hh, Bool.not_true, Bool.false_and, Bool.false_eq_true, if_false, if_true]
-      refine ⟨_, rfl, Or.inr ⟨rfl, by simp, by simp [key], by simp, by simp, fun _ => sameCluster_short _ (by simp)⟩⟩
+      refine ⟨_, rfl, Or.inr ⟨rfl, by simp, by simp [key], by simp, by simp, fun _ => sameCluster_short _ (by simp), by simpa using AdjPres_refl st.out⟩⟩
     · have hh' : c.has g.cp = false := by simpa using hh
       simp only [hh', Bool.not_false, Bool.true_and, Bool.false_and, Bool.false_eq_true, if_false]
       by_cases hj : (c.has (Spec.Hangul.decompL g.cp) && c.has (Spec.Hangul.decompV g.cp) &&
@@ -573,7 +951,8 @@ theorem stepS_ok (c : Cfg) (st : St) (g : G) (rest : List G) (hS : isCombinedS g
           obtain ⟨st', hf, h1, h2, h3, h4, h7⟩ := finishDecomposed_two c o1
             (setCp (Spec.Hangul.decompL g.cp) g1) (setCp (Spec.Hangul.decompV g.cp) g1) i
           rw [← hlo, hf]
-          refine ⟨st', rfl, Or.inr ⟨by rw [h1, hlo], h2, ?_, by simpa using (h4.trans hki), by simp, fun h0 => h7 h0⟩⟩
+          refine ⟨st', rfl, Or.inr ⟨by rw [h1, hlo], h2, ?_, by simpa using (h4.trans hki), by simp, fun h0 => h7 h0,
+            AdjPres_trans (replaceGlyphs_struct_adj hrep hlo) (by simpa using finishDecomposed_adj hf (by simp))⟩⟩
           rw [h3, hko]; simp [setCp]
         · have hlv' : ((g.cp - Spec.Hangul.SBase) % Spec.Hangul.TCount == 0) = false := by simpa using hlv
           have hb : ((g.cp - Spec.Hangul.SBase) % Spec.Hangul.TCount != 0) = true := by simp [bne, hlv']
@@ -585,7 +964,8 @@ theorem stepS_ok (c : Cfg) (st : St) (g : G) (rest : List G) (hS : isCombinedS g
             (setCp (Spec.Hangul.decompL g.cp) g1) (setCp (Spec.Hangul.decompV g.cp) g1)
             (setCp (Spec.Hangul.decompT g.cp) g1) i
           rw [← hlo, hf]
-          refine ⟨st', rfl, Or.inr ⟨by rw [h1, hlo], h2, ?_, by simpa using (h4.trans hki), by simp, fun h0 => h7 h0⟩⟩
+          refine ⟨st', rfl, Or.inr ⟨by rw [h1, hlo], h2, ?_, by simpa using (h4.trans hki), by simp, fun h0 => h7 h0,
+            AdjPres_trans (replaceGlyphs_struct_adj hrep hlo) (by simpa using finishDecomposed_adj hf (by simp))⟩⟩
           rw [h3, hko]; simp [setCp]
       · have hj' : (c.has (Spec.Hangul.decompL g.cp) && c.has (Spec.Hangul.decompV g.cp) &&
                   ((g.cp - Spec.Hangul.SBase) % Spec.Hangul.TCount == 0 || c.has (Spec.Hangul.decompT g.cp))) = false := by
@@ -606,7 +986,7 @@ theorem stepS_ok (c : Cfg) (st : St) (g : G) (rest : List G) (hS : isCombinedS g
           [g.cp + (gt.cp - Spec.Hangul.TBase)] st.out g (gt :: rest') (by simp)
         simp only [hrep]
         exact ⟨_, rfl, Or.inr ⟨rfl, by simp [hlo], by simpa using hko, by simpa using hki, by simp,
-          fun _ => sameCluster_short _ (by simp [hlo])⟩⟩
+          fun _ => sameCluster_short _ (by simp [hlo]), replaceGlyphs_adj hrep⟩⟩
       · have hcomp' : (Spec.Hangul.isCombiningT gt.cp && c.has (g.cp + (gt.cp - Spec.Hangul.TBase))) = false := by
           simpa using hcomp
         simp only [hcomp', Bool.false_eq_true, if_false]
@@ -626,13 +1006,14 @@ theorem stepS_ok (c : Cfg) (st : St) (g : G) (rest : List G) (hS : isCombinedS g
               obtain ⟨st', hf, h1, h2, h3, h4, h7⟩ := finishDecomposed_three c o1
                 (setCp (Spec.Hangul.decompL g.cp) g1) (setCp (Spec.Hangul.decompV g.cp) g1) gt1 r1
               rw [← hlo, hf]
-              refine ⟨st', rfl, Or.inr ⟨by rw [h1, hlo], h2, ?_, by simpa using (h4.trans hki.2), by simp, fun h0 => h7 h0⟩⟩
+              refine ⟨st', rfl, Or.inr ⟨by rw [h1, hlo], h2, ?_, by simpa using (h4.trans hki.2), by simp, fun h0 => h7 h0,
+            AdjPres_trans (replaceGlyphs_struct_adj hrep hlo) (by simpa using finishDecomposed_adj hf (by simp))⟩⟩
               have hc1 : gt1.cp = gt.cp := congrArg Prod.fst hki.1
               rw [h3, hko]; simp [setCp, hc1]
           · have hTj' : (Spec.Hangul.isT gt.cp && (c.has (Spec.Hangul.decompL g.cp) && c.has (Spec.Hangul.decompV g.cp))) = false := by
               simpa using hTj
             simp only [hTj', Bool.false_eq_true, if_false, if_true]
-            refine ⟨_, rfl, Or.inr ⟨rfl, by simp, by simp [key], by simp [key], by simp, fun _ => sameCluster_short _ (by simp)⟩⟩
+            refine ⟨_, rfl, Or.inr ⟨rfl, by simp, by simp [key], by simp [key], by simp, fun _ => sameCluster_short _ (by simp), by simpa using AdjPres_refl st.out⟩⟩
         · have hh' : c.has g.cp = false := by simpa using hh
           simp only [hh', Bool.not_false, Bool.true_or, Bool.true_and, Bool.and_false, Bool.false_and, Bool.false_eq_true, if_false]
           by_cases hj : (c.has (Spec.Hangul.decompL g.cp) && c.has (Spec.Hangul.decompV g.cp)) = true
@@ -643,7 +1024,8 @@ theorem stepS_ok (c : Cfg) (st : St) (g : G) (rest : List G) (hS : isCombinedS g
             obtain ⟨st', hf, h1, h2, h3, h4, h7⟩ := finishDecomposed_two c o1
               (setCp (Spec.Hangul.decompL g.cp) g1) (setCp (Spec.Hangul.decompV g.cp) g1) i
             rw [← hlo, hf]
-            refine ⟨st', rfl, Or.inr ⟨by rw [h1, hlo], h2, ?_, by simpa [key] using (h4.trans hki), by simp, fun h0 => h7 h0⟩⟩
+            refine ⟨st', rfl, Or.inr ⟨by rw [h1, hlo], h2, ?_, by simpa [key] using (h4.trans hki), by simp, fun h0 => h7 h0,
+            AdjPres_trans (replaceGlyphs_struct_adj hrep hlo) (by simpa using finishDecomposed_adj hf (by simp))⟩⟩
             rw [h3, hko]; simp [setCp]
           · have hj' : (c.has (Spec.Hangul.decompL g.cp) && c.has (Spec.Hangul.decompV g.cp)) = false := by simpa using hj
             simp only [hj', Bool.false_eq_true, if_false]
@@ -653,7 +1035,7 @@ theorem stepS_ok (c : Cfg) (st : St) (g : G) (rest : List G) (hS : isCombinedS g
       simp only [hlv', hb, Bool.false_and, Bool.false_or, Bool.or_false, Bool.and_false, if_true, Bool.false_eq_true, if_false, List.take]
       by_cases hh : c.has g.cp = true
       · simp only [hh, Bool.not_true, Bool.false_and, Bool.false_eq_true, if_false, if_true]
-        refine ⟨_, rfl, Or.inr ⟨rfl, by simp, by simp [key], by simp [key], by simp, fun _ => sameCluster_short _ (by simp)⟩⟩
+        refine ⟨_, rfl, Or.inr ⟨rfl, by simp, by simp [key], by simp [key], by simp, fun _ => sameCluster_short _ (by simp), by simpa using AdjPres_refl st.out⟩⟩
       · have hh' : c.has g.cp = false := by simpa using hh
         simp only [hh', Bool.not_false, Bool.true_and, Bool.false_and, Bool.false_eq_true, if_false]
         by_cases hj : (c.has (Spec.Hangul.decompL g.cp) && c.has (Spec.Hangul.decompV g.cp) && c.has (Spec.Hangul.decompT g.cp)) = true
@@ -665,7 +1047,8 @@ theorem stepS_ok (c : Cfg) (st : St) (g : G) (rest : List G) (hS : isCombinedS g
             (setCp (Spec.Hangul.decompL g.cp) g1) (setCp (Spec.Hangul.decompV g.cp) g1)
             (setCp (Spec.Hangul.decompT g.cp) g1) i
           rw [← hlo, hf]
-          refine ⟨st', rfl, Or.inr ⟨by rw [h1, hlo], h2, ?_, by simpa [key] using (h4.trans hki), by simp, fun h0 => h7 h0⟩⟩
+          refine ⟨st', rfl, Or.inr ⟨by rw [h1, hlo], h2, ?_, by simpa [key] using (h4.trans hki), by simp, fun h0 => h7 h0,
+            AdjPres_trans (replaceGlyphs_struct_adj hrep hlo) (by simpa using finishDecomposed_adj hf (by simp))⟩⟩
           rw [h3, hko]; simp [setCp]
         · have hj' : (c.has (Spec.Hangul.decompL g.cp) && c.has (Spec.Hangul.decompV g.cp) && c.has (Spec.Hangul.decompT g.cp)) = false := by
             simpa using hj
@@ -689,8 +1072,25 @@ theorem parse_L_nonV (f : Support) (x y : K) (rest : List K) (hl : Spec.Hangul.i
   simp [parse, hl, hv]
 
 
+theorem adj_syllable (st : St) (g : G) (st' : St) (X : List K) (hnt : isTone g.cp = false)
+    (hs : st'.start = st.out.length) (hk : keys st'.out = keys st.out ++ X)
+    (hadj : AdjPres st.out (st'.out.take st.out.length)) : AdjInfo st g st' := by
+  have hst : stable st g = st.out.length := by simp [stable, hnt]
+  have hl : st.out.length ≤ st'.out.length := by
+    have := congrArg List.length hk
+    simp at this; omega
+  refine ⟨hl, fun _ => Nat.le_of_eq hs.symm, ?_⟩
+  rw [hst, List.take_length]; exact hadj
+
+theorem adj_fallThrough (st : St) (g : G) (rest : List G) (hnt : isTone g.cp = false) :
+    AdjInfo st g (fallThrough st g rest) := by
+  have hst : stable st g = st.out.length := by simp [stable, hnt]
+  refine ⟨by simp [fallThrough], fun _ => by simp [fallThrough], ?_⟩
+  rw [hst]
+  simpa [fallThrough] using AdjPres_refl st.out
+
 theorem step_sim (c : Cfg) (st : St) (g : G) (rest : List G) (hi : st.inp = g :: rest) (hinv : Inv st) :
-    ∃ st', step c st = some st' ∧ Sim c st g rest st' := by
+    ∃ st', step c st = some st' ∧ Sim c st g rest st' ∧ AdjInfo st g st' := by
   unfold step
   rw [hi]
   simp only
@@ -705,16 +1105,17 @@ theorem step_sim (c : Cfg) (st : St) (g : G) (rest : List G) (hi : st.inp = g ::
     cases rest with
     | nil =>
       simp only [hl, List.isEmpty_nil, Bool.not_true, Bool.and_false, Bool.false_eq_true, if_false, hnS]
-      exact ⟨_, rfl, sim_fallThrough c st g [] hinv ht' (parse_L_end _ _ hlS)⟩
+      exact ⟨_, rfl, sim_fallThrough c st g [] hinv ht' (parse_L_end _ _ hlS), adj_fallThrough st g [] ht'⟩
     | cons gv rest2 =>
       simp only [hl, List.isEmpty_cons, Bool.not_false, Bool.and_true, if_true]
       by_cases hv : isV gv.cp = true
       · simp only [hv, if_true]
         obtain ⟨st', hs, h1, h2, h3, h4, h5⟩ := stepLV_ok c st g gv rest2 hl hv
-        exact ⟨st', hs, sim_syllable c st g (gv :: rest2) st' ht' h5.1 h1 h2 h3 h4⟩
+        exact ⟨st', hs, sim_syllable c st g (gv :: rest2) st' ht' h5.1 h1 h2 h3 h4,
+          adj_syllable st g st' _ ht' h1 h3 h5.2.2⟩
       · have hv' : isV gv.cp = false := by simpa using hv
         simp only [hv', Bool.false_eq_true, if_false]
-        refine ⟨_, rfl, sim_fallThrough c st g (gv :: rest2) hinv ht' ?_⟩
+        refine ⟨_, rfl, sim_fallThrough c st g (gv :: rest2) hinv ht' ?_, adj_fallThrough st g _ ht'⟩
         exact parse_L_nonV _ _ _ _ hlS (by rw [← isV_eq]; exact hv')
   · have hl' : isL g.cp = false := by simpa using hl
     simp only [hl', Bool.false_and, Bool.false_eq_true, if_false]
@@ -723,11 +1124,12 @@ theorem step_sim (c : Cfg) (st : St) (g : G) (rest : List G) (hi : st.inp = g ::
       obtain ⟨st', hst, hor⟩ := stepS_ok c st g rest hs
       refine ⟨st', hst, ?_⟩
       cases hor with
-      | inl h => rw [h.2]; exact sim_fallThrough c st g rest hinv ht' h.1
-      | inr h => exact sim_syllable c st g rest st' ht' h.2.2.2.2.1 h.1 h.2.1 h.2.2.1 h.2.2.2.1
+      | inl h => rw [h.2]; exact ⟨sim_fallThrough c st g rest hinv ht' h.1, adj_fallThrough st g rest ht'⟩
+      | inr h => exact ⟨sim_syllable c st g rest st' ht' h.2.2.2.2.1 h.1 h.2.1 h.2.2.1 h.2.2.2.1,
+          adj_syllable st g st' _ ht' h.1 h.2.2.1 h.2.2.2.2.2.2⟩
     · have hs' : isCombinedS g.cp = false := by simpa using hs
       simp only [hs', Bool.false_eq_true, if_false]
-      refine ⟨_, rfl, sim_fallThrough c st g rest hinv ht' ?_⟩
+      refine ⟨_, rfl, sim_fallThrough c st g rest hinv ht' ?_, adj_fallThrough st g rest ht'⟩
       exact parse_other _ _ _ (by rw [← isL_eq]; exact hl') (by rw [← isCombinedS_eq]; exact hs')
 
 theorem stepK_rest_le (f : Support) (p : List K) (x : K) (rest : List K) :
@@ -761,7 +1163,7 @@ theorem run_sim (c : Cfg) : ∀ (n : Nat) (st : St), st.inp.length = n → Inv s
       rw [keys_nil, render_nil, done_pend]
     | cons g rest =>
       simp only [reduceCtorEq, if_false]
-      obtain ⟨st1, hstep, hinv1, hd, hp, hk⟩ := step_sim c st g rest hi hinv
+      obtain ⟨st1, hstep, ⟨hinv1, hd, hp, hk⟩, _⟩ := step_sim c st g rest hi hinv
       rw [← hi, hstep]
       simp only
       have hlen : st1.inp.length < st.inp.length := by
@@ -1087,5 +1489,232 @@ theorem step_syllable (c : Cfg) (st : St) (g : G) (rest : List G) (hi : st.inp =
       | inr h => exact ⟨st', hst, h⟩
     · have hs' : isCombinedS g.cp = false := by simpa using hs
       exact absurd (parse_other _ _ _ (by rw [← isL_eq]; exact hl') (by rw [← isCombinedS_eq]; exact hs')) hp
+
+
+/-! ## whole runs: where a chunk ends up, and that its glyphs keep sharing a cluster -/
+
+theorem run_step (c : Cfg) (st st1 : St) (hne : st.inp ≠ []) (hs : step c st = some st1)
+    (hl : st1.inp.length < st.inp.length) : run c st = run c st1 := by
+  rw [run]
+  simp only [hne, if_false, hs, hl, if_true]
+
+theorem keys_inp_lt {st st1 : St} {g : G} {rest : List G} {f : Support} {p : List K}
+    (hi : st.inp = g :: rest) (hk : keys st1.inp = (stepK f p (key g) (keys rest)).rest) :
+    st1.inp.length < st.inp.length := by
+  have h1 : st1.inp.length = (keys st1.inp).length := by simp
+  rw [h1, hk, hi]
+  have := stepK_rest_le f p (key g) (keys rest)
+  simp at this ⊢; omega
+
+/-- the rest of the loop never disturbs a prefix `m` of the out-buffer that lies before the open syllable
+    (or all of the out-buffer when no tone mark comes next): same length or longer, and adjacent glyphs
+    that shared a cluster still do -/
+theorem run_adj (c : Cfg) (m : Nat) : ∀ (n : Nat) (st : St), st.inp.length = n → Inv st → m ≤ st.out.length →
+    (valid st → m ≤ st.start ∨ ∀ h ∈ st.inp.head?, isTone h.cp = false) →
+    ∃ stf, run c st = some stf ∧ m ≤ stf.out.length ∧ AdjPres (st.out.take m) (stf.out.take m) := by
+  intro n
+  induction n using Nat.strongRecOn with
+  | _ n ih =>
+    intro st hn hinv hm hv
+    cases hi : st.inp with
+    | nil =>
+      refine ⟨st, ?_, hm, AdjPres_refl _⟩
+      rw [run]; simp [hi]
+    | cons g rest =>
+      obtain ⟨st1, hstep, ⟨hinv1, _, _, hk⟩, hl1, hv1, hadj⟩ := step_sim c st g rest hi hinv
+      have hlt := keys_inp_lt hi hk
+      have hne : st.inp ≠ [] := by rw [hi]; simp
+      have hst : m ≤ stable st g := by
+        unfold stable
+        split
+        · rename_i h
+          cases hv h.2 with
+          | inl h1 => exact h1
+          | inr h2 =>
+            have := h2 g (by rw [hi]; simp)
+            rw [h.1] at this; cases this
+        · exact hm
+      obtain ⟨stf, hrun, hmf, hadjf⟩ := ih st1.inp.length (by omega) st1 rfl hinv1 (by omega)
+        (fun h => Or.inl (Nat.le_trans hm (hv1 h)))
+      refine ⟨stf, by rw [run_step c st st1 hne hstep hlt]; exact hrun, hmf, ?_⟩
+      have h1 := AdjPres_take m hadj
+      rw [List.take_take, List.take_take, Nat.min_eq_left hst] at h1
+      exact AdjPres_trans h1 hadjf
+
+/-- the loop reaches the boundary in front of `B` (a glyph that is neither vowel nor trailing jamo) with the
+    out-buffer holding what the text so far renders to -/
+theorem run_prefix (c : Cfg) : ∀ (n : Nat) (st : St) (A B : List K), A.length = n → Inv st →
+    keys st.inp = A ++ B → Safe B →
+    ∃ stm, run c st = run c stm ∧ Inv stm ∧ keys stm.inp = B ∧
+      keys stm.out = doneK st ++ render (sup c) (pendK st) A := by
+  intro n
+  induction n using Nat.strongRecOn with
+  | _ n ih =>
+    intro st A B hn hinv hk hs
+    cases A with
+    | nil =>
+      refine ⟨st, rfl, hinv, by simpa using hk, ?_⟩
+      rw [render_nil, done_pend]
+    | cons x A' =>
+      cases hi : st.inp with
+      | nil => rw [hi] at hk; simp at hk
+      | cons g rest =>
+        rw [hi] at hk
+        simp only [keys_cons, List.cons_append, List.cons.injEq] at hk
+        obtain ⟨hx, hrest⟩ := hk
+        obtain ⟨st1, hstep, ⟨hinv1, hd, hp, hk1⟩, _⟩ := step_sim c st g rest hi hinv
+        have hlt := keys_inp_lt hi hk1
+        have hne : st.inp ≠ [] := by rw [hi]; simp
+        rw [hrest, hx, stepK_append _ _ _ _ _ hs] at hd hp hk1
+        simp only at hd hp hk1
+        have hle := stepK_rest_le (sup c) (pendK st) x A'
+        obtain ⟨stm, hrun, hinvm, hkm, hout⟩ := ih (stepK (sup c) (pendK st) x A').rest.length
+          (by simp at hn; omega) st1 _ B rfl hinv1 hk1 hs
+        refine ⟨stm, by rw [run_step c st st1 hne hstep hlt]; exact hrun, hinvm, hkm, ?_⟩
+        rw [hout, hd, hp, render_cons, List.append_assoc]
+
+
+theorem run_sim' (c : Cfg) (st : St) (hinv : Inv st) : ∃ st', run c st = some st' ∧ st'.inp = [] := by
+  obtain ⟨st', h1, h2, _⟩ := run_sim c st.inp.length st rfl hinv
+  exact ⟨st', h1, h2⟩
+
+/-- **One cluster, in the result.** At level 0 the glyphs a syllable chunk is rendered with share one cluster in
+    the final buffer; they sit right after what the preceding text is turned into. -/
+theorem one_cluster_chunk (c : Cfg) (hlev : c.level = 0) (pre tail post : List G) (x : G) (syl : List K)
+    (hx : isV x.cp = false ∧ isT x.cp = false) (hnt : isTone x.cp = false)
+    (hp : parse (sup c) (key x) (keys tail ++ keys post) = (syl, tail.length)) (hsyl : syl ≠ [])
+    (hpost : ∀ g ∈ post.head?, isTone g.cp = false) :
+    ∃ a r, preprocess c pre = some a ∧ preprocess c (pre ++ x :: tail ++ post) = some r ∧
+      keys ((r.drop a.length).take syl.length) = syl ∧ sameCluster ((r.drop a.length).take syl.length) := by
+  obtain ⟨a, b, r, ha, _, hr, hkr⟩ := preprocess_chunk c pre tail post x syl hx hnt hp hsyl hpost
+  obtain ⟨a', ha', hka⟩ := preprocess_keys c pre
+  have haa : a' = a := by rw [ha] at ha'; exact (Option.some.inj ha').symm
+  subst haa
+  refine ⟨a', r, ha, hr, ?_, ?_⟩
+  · rw [keys_take, keys_drop, hkr, List.append_assoc, List.drop_left' (by simp), List.take_left' rfl]
+  -- the run
+  let st0 : St := { out := [], inp := pre ++ x :: tail ++ post, start := 0, end_ := 0 }
+  have hinv0 : Inv st0 := by simp [Inv, st0]
+  have hv0 : ¬ valid st0 := by simp [valid, st0]
+  have hxS : Spec.Hangul.isV (key x).1 = false ∧ Spec.Hangul.isT (key x).1 = false :=
+    ⟨by rw [← isV_eq]; exact hx.1, by rw [← isT_eq]; exact hx.2⟩
+  have hsafe : Safe (key x :: (keys tail ++ keys post)) := by
+    intro y hy; simp at hy; subst hy; exact hxS
+  obtain ⟨stm, hrun0, hinvm, hkm, houtm⟩ := run_prefix c (keys pre).length st0 (keys pre)
+    (key x :: (keys tail ++ keys post)) rfl hinv0 (by simp [st0]) hsafe
+  rw [(view_invalid hv0).1, (view_invalid hv0).2] at houtm
+  simp only [st0, keys_nil, List.nil_append] at houtm
+  have hlm : stm.out.length = a'.length := by
+    rw [← keys_length, houtm, ← hka, keys_length]
+  -- the syllable iteration
+  cases him : stm.inp with
+  | nil => rw [him] at hkm; simp at hkm
+  | cons g rest =>
+    rw [him] at hkm
+    simp only [keys_cons, List.cons.injEq] at hkm
+    obtain ⟨hg, hrest⟩ := hkm
+    have hgcp : g.cp = x.cp := congrArg Prod.fst hg
+    have hp' : parse (sup c) (key g) (keys rest) = (syl, tail.length) := by rw [hg, hrest]; exact hp
+    obtain ⟨st2, hstep2, hs2, he2, hk2, hi2, _, hcl2, _⟩ :=
+      step_syllable c stm g rest him (by rw [hgcp]; exact hnt) (by rw [hp']; exact hsyl)
+    rw [hp'] at hk2 hi2
+    simp only at hk2 hi2
+    have hl2 : st2.out.length = stm.out.length + syl.length := by
+      have := congrArg List.length hk2; simpa using this
+    have hi2' : keys st2.inp = keys post := by
+      rw [hi2, hrest, List.drop_left' (by simp)]
+    have hlt2 : st2.inp.length < stm.inp.length := by
+      rw [him, ← keys_length, hi2', keys_length]
+      have : rest.length = tail.length + post.length := by
+        have := congrArg List.length hrest; simpa using this
+      simp; omega
+    have hrun2 : run c stm = run c st2 := run_step c stm st2 (by rw [him]; simp) hstep2 hlt2
+    -- the rest of the loop
+    have hinv2 : Inv st2 := by simp [Inv, he2]
+    have hhead : ∀ h ∈ st2.inp.head?, isTone h.cp = false := by
+      intro h hh
+      cases hi : st2.inp with
+      | nil => rw [hi] at hh; simp at hh
+      | cons h' r' =>
+        rw [hi] at hh hi2'
+        simp at hh; subst hh
+        cases post with
+        | nil => simp at hi2'
+        | cons p0 pr =>
+          simp only [keys_cons, List.cons.injEq] at hi2'
+          have : h'.cp = p0.cp := congrArg Prod.fst hi2'.1
+          rw [this]; exact hpost p0 (by simp)
+    obtain ⟨stf, hrunf, _, hadjf⟩ := run_adj c st2.out.length st2.inp.length st2 rfl hinv2 (Nat.le_refl _)
+      (fun _ => Or.inr hhead)
+    rw [List.take_length] at hadjf
+    -- r is the final out-buffer
+    obtain ⟨stf', hrunf', hnil⟩ := run_sim' c st0 hinv0
+    have hsame : stf' = stf := by
+      rw [hrun0, hrun2, hrunf] at hrunf'; exact (Option.some.inj hrunf').symm
+    subst hsame
+    have hr' : r = stf'.out := by
+      unfold preprocess at hr
+      rw [hrunf'] at hr
+      simp only [Option.map_some, Option.some.injEq, hnil, List.append_nil] at hr
+      exact hr.symm
+    rw [hr', ← hlm]
+    have hblock := block_of_AdjPres hadjf stm.out.length syl.length
+      (by rw [List.take_of_length_le (by simp; omega)]; exact hcl2 hlev)
+    rw [List.drop_take, List.take_take] at hblock
+    have : min syl.length (st2.out.length - stm.out.length) = syl.length := by omega
+    rwa [this] at hblock
+
+
+
+/-! ## vocabulary of the property theorems -/
+
+/-- the crate's syllable formula: `S_BASE + (l - L_BASE) * N_COUNT + (v - V_BASE) * T_COUNT + tindex`
+    (`t = TBase` = no trailing consonant) -/
+@[reducible] def syllable (l v t : Nat) : Nat := SBase + (l - LBase) * NCount + (v - VBase) * TCount + (t - TBase)
+
+/-- the L / V / T parts the `is_combined_s` branch computes -/
+@[reducible] def partL (s : Nat) : Nat := LBase + (s - SBase) / NCount
+@[reducible] def partV (s : Nat) : Nat := VBase + (s - SBase) % NCount / TCount
+@[reducible] def partT (s : Nat) : Nat := TBase + (s - SBase) % NCount % TCount
+
+/-- a precomposed syllable the font lacks, all of whose jamo it has: the parser decomposes it -/
+theorem parse_decompose_S (c : Cfg) (post : List G) (s : G)
+    (hs : isCombinedS s.cp = true) (hno : c.has s.cp = false)
+    (hL : c.has (partL s.cp) = true) (hV : c.has (partV s.cp) = true)
+    (hT : partT s.cp = TBase ∨ c.has (partT s.cp) = true)
+    (hpost : ∀ g ∈ post.head?, partT s.cp = TBase → isT g.cp = false) :
+    parse (sup c) (key s) (keys ([] : List G) ++ keys post)
+      = ([(partL s.cp, LJMO), (partV s.cp, VJMO)] ++ (if partT s.cp = TBase then [] else [(partT s.cp, TJMO)]),
+         ([] : List G).length) := by
+  have hsS : Spec.Hangul.isS s.cp = true := by rw [← isCombinedS_eq]; exact hs
+  have hLV : Spec.Hangul.isLV s.cp = decide (partT s.cp = TBase) := by
+    unfold Spec.Hangul.isLV partT; rw [← tindex_eq]
+    rw [Bool.eq_iff_iff]; simp
+  have hjam : jamoOf s.cp = [(partL s.cp, LJMO), (partV s.cp, VJMO)] ++ if partT s.cp = TBase then [] else [(partT s.cp, TJMO)] := by
+    unfold jamoOf
+    rw [hLV]
+    simp only [decide_eq_true_eq]
+    rw [← lpart_eq, ← vpart_eq, ← tpart_eq, ← tindex_eq]
+    rfl
+  have hok : jamoOK (sup c) s.cp = true := by
+    unfold jamoOK
+    rw [hLV, ← lpart_eq, ← vpart_eq, ← tpart_eq, ← tindex_eq]
+    simp only [sup, Bool.and_eq_true, Bool.or_eq_true, decide_eq_true_eq]
+    exact ⟨⟨hL, hV⟩, hT⟩
+  have hno' : (sup c).has s.cp = false := hno
+  rw [← hjam]
+  simp only [keys_nil, List.nil_append, key, List.length_nil]
+  cases post with
+  | nil => rw [keys_nil, parse_S _ _ _ _ hsS (by simp)]; simp [hno', hok]
+  | cons y r =>
+    have hy := hpost y (by simp)
+    by_cases hyT : Spec.Hangul.isT y.cp = true
+    · have hnlv : Spec.Hangul.isLV s.cp = false := by
+        rw [hLV]; simp only [decide_eq_false_iff_not]; intro h; have := hy h; rw [isT_eq, hyT] at this; cases this
+      simp only [keys_cons, key]
+      rw [parse_S_T _ _ _ _ _ _ hsS]
+      simp [hnlv, hno', hok]
+    · have hyT' : Spec.Hangul.isT y.cp = false := by simpa using hyT
+      rw [parse_S _ _ _ _ hsS (by simp [key, hyT'])]; simp [hno', hok]
 
 end RbModel.Hangul
